@@ -11,7 +11,7 @@ SIGNATURE = 0xBEDA107F
 def build(rng, *, block_size: int, nblocks: int, tail_cut: int = 0, states=None, placement: str = "shuffle",
           blocks_offset: int | None = None, data_gap: int = 0, holes: int = 0, tag: int = 1, kind: int = 0,
           header_size: int = 0x190, dense: bool = False, uuid: bytes | None = None, parent_uuid: bytes = b"\0" * 16,
-          description: bytes = b"", image_type: int = 1):
+          description: bytes = b"", image_type: int = 1, tight_end: bool = False):
     """-> (SparseFile, Layer, meta). states[i] in {'A','U','Z'} per logical block."""
     size = nblocks * block_size - tail_cut
     spb = block_size // SECTOR
@@ -58,6 +58,9 @@ def build(rng, *, block_size: int, nblocks: int, tail_cut: int = 0, states=None,
         blocks_offset = 512
     map_bytes = struct.pack(f"<{nblocks}i", *bmap)
     data_offset = -(-(blocks_offset + len(map_bytes)) // SECTOR) * SECTOR + data_gap
+    if tight_end and not nphys:
+        # an image without a single stored block: the file ends with the last entry of the block map
+        data_offset = blocks_offset + len(map_bytes)
     uuid = uuid or bytes(rng.randrange(256) for _ in range(16))
     snap_uuid = bytes(rng.randrange(256) for _ in range(16))
     info = rng.random() < 0.6  # informational fields: any value is well-formed
